@@ -25,7 +25,7 @@ CLAIMS.update({
         text='Static: one Task appended and mapped per node of topological_sort(graph) on every path of the '
              'node loop; every Task argument is shown to come from the right node/edge attribute of the '
              'workflow graph; the plan graph is relabel_nodes(graph, mapping); predecessor/successor queries '
-             'call the graph in their own role. Holds for every DAG because the rule is about the code shape.',
+             'call the graph in their own role; Task.id is never rewritten and readers of the plan (scheduler, algorithms) read the task list the plan was built with. Holds for every DAG because the rule is about the code shape.',
         note='Trusts the documented networkx API; BatchPlanning only (SHADOWPlanning needs the absent shadow library).',
         ref='DESIGN.md section 4, C14'),
     'C16': dict(
@@ -39,14 +39,16 @@ CLAIMS.update({
         technique='provenance analysis of the allocation map + who-writes/who-calls rules over the call graph',
         text='Static: every machine the plan-following algorithm proposes for task t is the machine with id '
              't.allocated_machine_id; the planned machine is rewritten only by Task itself at the scheduler\'s '
-             'request; the (task, machine) pair is passed unchanged from scheduler to cluster to do_work.',
+             'request; the (task, machine) pair is passed unchanged from scheduler to cluster to do_work; the id table is '
+             '{m.id: m for every machine m} and get_machine_from_id reads it.',
         note='Does not decide that the planned machine eventually becomes free (liveness).',
         ref='DESIGN.md section 4, C17'),
     'C10': dict(
         technique='package-wide determinism lint: set-typed dataflow, RNG seeding, clock/identity sinks, repr',
         text='Static lint over all topsim modules: order-sensitive iteration over hash-ordered sets (set-typedness '
              'propagated through call sites), unseeded generators, wall-clock/id() flows outside the excluded '
-             'timing sinks, and address-bearing text of algorithm objects are each reported. Given SimPy\'s '
+             'timing sinks (followed through locals), seeds that are not the constructor argument, containers shared between '
+             'instances or calls (class-level mutables, mutable defaults) and address-bearing text of algorithm objects are each reported. Given SimPy\'s '
              'deterministic queue these are the only sources that can make two runs differ.',
         note='Trusts SimPy/pandas determinism and insertion-ordered dicts; dead modules listed in the evidence are skipped.',
         ref='DESIGN.md section 4, C10'),
@@ -68,7 +70,7 @@ CLAIMS.update({
              'either untouched or moved by one remove plus one append to a different pool; refusals precede effects '
              'and a helper\'s refusal status is never dropped; machines set aside for a reservation are by provenance '
              'elements of the available pool (so the bulk operation cannot be refused half-way); the usage counters move exactly with the containers '
-             'they mirror. These are necessary conditions for exactly-one-pool and true counts at every instant.',
+             'they mirror; containers are per instance (no class-level mutables or mutable defaults); C04.T2 and C09.R4 are adopted. These are necessary conditions for exactly-one-pool and true counts at every instant.',
         note='Final state ("all machines available at the end") needs termination and is not decided. '
              'Assumes machines are unique objects and list.append/remove semantics.',
         ref='DESIGN.md section 4, C02'),
@@ -87,21 +89,21 @@ CLAIMS.update({
         text='Static: calculate_runtime is max(floor(flops/cpu), floor(data/bandwidth)) in normal form; on every path of '
              'do_work the waits after the recorded start plus (aft - now) equal the total duration when it is >= 1 and '
              '1 otherwise; the total flows only from the delay model applied to the duration; ingest tasks carry the '
-             'observation duration and no work.',
+             'observation duration and no work; C14.G2 and C16.K2 are adopted.',
         note='Non-negative demands/speeds (int(a/b) = floor). SimPy timeout semantics trusted.',
         ref='DESIGN.md section 4, C06'),
     'C11': dict(
         technique='guard-first / effect-freedom / single-registration rules + consume-once rule on the collation',
         text='Static: start and resume test the running flag and refuse before any effect; resume registers nothing '
              'and writes no state; every actor loop is registered exactly once, only in start; the event collation '
-             'empties what it read (it runs twice for the pause step); processes sleep in whole steps.',
+             'empties what it read (it runs twice for the pause step); processes sleep in whole steps; what start does after the run (its tail) writes no simulation state.',
         note='Equality of whole trajectories follows from these plus SimPy determinism (witness checked against the installed SimPy); it is not proved as such.',
         ref='DESIGN.md section 4, C11'),
     'C12': dict(
         technique='registration-order rule, per-cycle path rule on Monitor.run, column provenance table, counter coupling over atomic blocks',
         text='Static: the monitor is the first registered process; each cycle appends exactly one row and sleeps one '
              'step; each of 11 columns reads the state field it names; the usage counters behind the cluster columns '
-             'move with their containers in every atomic block (same analysis as C02.P4).',
+             'move with their containers in every atomic block (same analysis as C02.P4); C18.V4 (stored lists) and the shared-container lint are adopted.',
         note='SimPy order model verified against the installed source; values of the fields themselves are decided by C02/C07 rules.',
         ref='DESIGN.md section 4, C12'),
     'C13': dict(
@@ -109,7 +111,7 @@ CLAIMS.update({
         text='Static: each of the eight life-cycle events has exactly one emit site, on exactly the paths of its '
              'transition, stamped env.now; the monitor collates all three lists and consumes them; no clear of a list '
              'can run between an emit into it and the monitor\'s next read, judged with the registration order of the '
-             'actor loops and the actor each emitting/clearing process is rooted at.',
+             'actor loops and the actor each emitting/clearing process is rooted at; C08.A1/A8/A9 and C07.B3 (the transitions the events report) are adopted.',
         note='Numeric order of timestamps is not decided; it follows from emit-at-transition plus the spawn chain.',
         ref='DESIGN.md section 4, C13'),
 })
@@ -120,7 +122,7 @@ CLAIMS.update({
         text='Static: do_work is started only by the cluster/machine, allocations only by scheduler and ingest provisioning; '
              'the workflow path moves the machine into occupied before do_work starts, ingest removes it from available first; '
              'machines return to a free pool only under <handle>.triggered with the handle being this task\'s do_work process; '
-             'and for each hazardous proposal (occupied, on ingest, reserved for another observation, duplicated in a round) '
+             'C02.P2 and C06.W2 are adopted; and for each hazardous proposal (occupied, on ingest, reserved for another observation, duplicated in a round) '
              'at least one defence is effective - the scheduler guard (dominance) or the cluster check (five membership worlds).',
         note='Defences are judged disjunctively on purpose (defence in depth): removing a redundant guard leaves the property true. Pool disjointness comes from C02.',
         ref='DESIGN.md section 4, C01'),
@@ -129,7 +131,7 @@ CLAIMS.update({
         text='Static: every proposal of a task in the four shipped algorithms is dominated by "no predecessors" or an '
              'all-predecessors-finished fact; tasks enter the finished table only under the completion test; cross-machine '
              'predecessors (only) are collected, passed through cluster to do_work, waited for before ast is recorded; the wait '
-             'is the running maximum of p.aft + io[p.id]/machine.bandwidth - now with the receiving machine\'s bandwidth.',
+             'is the running maximum of p.aft + io[p.id]/machine.bandwidth - now with the receiving machine\'s bandwidth; C14.G2 (task ids/predecessor queries) is adopted.',
         note='Exact start equality under concurrency is timing and not decided.',
         ref='DESIGN.md section 4, C03'),
     'C04': dict(
@@ -137,7 +139,7 @@ CLAIMS.update({
         text='Static necessary conditions: hand-off stored->scheduled is one pop+append and queueing+spawn happen together; task '
              'status writes follow the life cycle with FINISHED only under the completion test; a submitted task leaves '
              'UNSCHEDULED at once, stale proposals are refused, duplicates in a round are skipped; finished tasks (only) leave '
-             'the plan; workflows close only when nothing is left; start() returns only when is_finished(); the scheduler releases reservations itself.',
+             'the plan; workflows close only when nothing is left; start() returns only when is_finished(); the scheduler releases reservations itself (C09.R4 adopted); the hot buffer hands out for processing the observation it moves to the cold tier (T10).',
         note='Liveness (every task is eventually offered) and final values are not decided.',
         ref='DESIGN.md section 4, C04'),
     'C07': dict(
@@ -153,7 +155,7 @@ CLAIMS.update({
         text='Static: begin_observation and the ingest spawn are dominated by is_ready(now, total_arrays - telescope_use computed '
              'per observation) and the scheduler check; each predicate\'s true verdict implies its required atoms (start time, arrays, '
              'WAITING; buffer and cluster checks, pending+demand<=max with reservation; available>=demand, ingest+demand<=max; room '
-             'for rate*duration in both tiers); ingest takes exactly demand machines; status and telescope_use follow their life cycle.',
+             'for rate*duration in both tiers); ingest takes exactly demand machines; status and telescope_use follow their life cycle (writes through ast-level aliases included); C05.L1 and C06.W4 are adopted.',
         note='"Starts exactly on time when idle" and same-step admissions reading stale pools are not decided.',
         ref='DESIGN.md section 4, C08'),
     'C09': dict(
